@@ -44,10 +44,14 @@ def main():
             if sid.split("-")[0] == pid:
                 lines = [l.strip() for l in open(os.path.join(base, sid, "README.md")) if l.strip()]
                 seen.append("  * " + " ".join(lines[:5])[:500])
+        files = sorted({f for sid in sorted(os.listdir(base)) if sid.split("-")[0] == pid
+                        for f in json.load(open(os.path.join(base, sid, "meta.json"))).get("files_touched", [])})
         if seen:
             exclude = ("\nCHANGES ALREADY PROPOSED BY SOMEONE ELSE - do NOT repeat these or close variants (same site or same "
                        "mechanism); find different sites, different mechanisms, different things needed to manifest:\n"
-                       + "\n".join(seen) + "\n")
+                       + "\n".join(seen) + "\n\nFiles those proposals touched: " + ", ".join(files)
+                       + ". At least one of your changes should live in a file NOT in that list, if a realistic one exists there "
+                         "(look at every file the property could depend on, including less obvious ones).\n")
     sys.stdout.write(TEMPLATE.format(wt=wt, out=out, pid=pid, title=p["title"], statement=p["statement"],
                                      quant=p["quantifier"]["text"], n=n, exclude=exclude))
 
